@@ -543,6 +543,10 @@ def check_C20(chk):
     for k in range(1000 if thorough else 40):
         n = rng.randint(1, 32)
         plan = [(rng.choice([0, 0, 1, 5, 50]), rng.choice([0, 1, 3, 20, 50]), rng.random() < 0.7) for _ in range(n)]
+        if k % 5 == 4:
+            # a backlog larger than any per-event budget, queued before the conversion or sent in one go afterwards, then silence
+            j = rng.randrange(n)
+            plan[j] = (rng.choice([0, 70, 150, 300]), rng.choice([0, 66, 140]), rng.random() < 0.7)
         poison = None
         if k % 4 == 3:
             cand = [i for i, (b, a, d) in enumerate(plan) if a >= 2]
